@@ -1233,7 +1233,10 @@ HARNESSES += [
              lambda p: p.encode.field_table(_DEC_TABLE).hex(), prec=3)),
          _call('decode.field_table(decimals), prec=2', _narrow(
              lambda p: c16events.c(p.decode.field_table(_DEC_WIRE)), prec=2,
-             rounding='ROUND_UP'))], 1, 2),
+             rounding='ROUND_UP'))], 1, 2,
+     {'custom': {0: lambda r: r == _DEC_WIRE.hex(),
+                 1: lambda r: r == c16events.c((len(_DEC_WIRE),
+                                                _DEC_TABLE))}}),
     ('marshal a header with Decimals under a 1-digit thread context || '
      'unmarshal it under a 4-digit one', [
          _call('marshal header(decimals), prec=1', _narrow(
@@ -1311,6 +1314,8 @@ def explore_schedules(ctx, h, shard, bound, cold=False):
         h_setup()
         try:
             sequential.append(b())
+        except Exception as exc:  # noqa - as a thread would record it
+            sequential.append(['raised', type(exc).__name__])
         finally:
             h_teardown()
     reset_switch()
